@@ -18,13 +18,13 @@ Proof.
   split; [exact T | exact W].
 Qed.
 
-Theorem txn_conserves E U tx c c' ad :
+Theorem txn_conserves E U tx ctr c c' ad :
   env_ok E -> NoDup U -> tx_ok E U tx -> wf_cow (e_lvl E) c ->
-  apply_transaction E tx c = (c', Ok ad) ->
+  apply_transaction E tx ctr c = (c', Ok ad) ->
   tot_at (e_P E) (e_lvl E) U c' = tot_at (e_P E) (e_lvl E) U c /\ wf_cow (e_lvl E) c'.
 Proof.
   intros [Hu Hl] HU Hok Hw H.
-  destruct (apply_transaction_spec E Hu Hl U HU tx c c' ad _ Hok (conj Hw eq_refl) H) as [W T].
+  destruct (apply_transaction_spec E Hu Hl U HU tx ctr c c' ad _ Hok (conj Hw eq_refl) H) as [W T].
   split; [exact T | exact W].
 Qed.
 
